@@ -71,7 +71,7 @@ PIN_ROWS = [("你", "ni", 100), ("好", "hao", 90), ("你好", "ni hao", 80), ("
 CJ_ROWS = [("日", "a", 9), ("月", "b", 8), ("明", "ab", 7), ("金", "c", 6), ("木", "d", 5), ("林", "dd", 4), ("森", "ddd", 3), ("水", "e", 2)]
 
 
-def make_full_workspace(d):
+def make_full_workspace(d, user_dict=True):
     """a stock-like workspace: luna_pinyin's schema structure (all stock components) over tiny dictionaries"""
     shutil.rmtree(d, ignore_errors=True)
     os.makedirs(d)
@@ -84,6 +84,9 @@ def make_full_workspace(d):
     s = s.replace("schema_id: luna_pinyin", "schema_id: vs_full").replace("dictionary: luna_pinyin", "dictionary: vs_pin") \
          .replace("dictionary: cangjie5", "dictionary: vs_cj")
     s += "\nmenu:\n  page_size: 4\n  alternative_select_labels: [ ①, ②, ③, ④ ]\n"
+    if not user_dict:   # learning disabled (C16)
+        s = s.replace("translator:\n  dictionary: vs_pin", "translator:\n  dictionary: vs_pin\n  enable_user_dict: false")
+        s = s.replace("  dictionary: vs_cj\n  prefix: 'C:'", "  dictionary: vs_cj\n  enable_user_dict: false\n  prefix: 'C:'")
     open(os.path.join(d, "vs_full.schema.yaml"), "w", encoding="utf-8").write(s)
     open(os.path.join(d, "vs_script.schema.yaml"), "w").write(sc.schema_yaml("vs_script", sc.SCHEMAS["vs_script"]))
     with open(os.path.join(d, "vs_pin.dict.yaml"), "w", encoding="utf-8") as f:
@@ -104,7 +107,8 @@ SHORT_HISTORY = ["new", "schema {sid}", "context", "key 110 0", "key 105 0", "co
                  "key 65473 0", "context", "key 50 0", "context", "key 65473 0", "key 65364 0", "key 65364 0", "key 32 0", "context",
                  "key 96 4", "context", "key 65307 0", "state_label {zh} 1", "option {zh} 1", "key 110 0", "key 105 0", "context",
                  "state_label {zh} 0", "option {zh} 0", "context", "key 65307 0", "schema_list", "status",
-                 "sim {sim}", "context", "commit", "cur_schema 64", "schema vs_script", "key 97 0", "context", "schema {sid}", "context"]
+                 "sim {sim}", "context", "commit", "cur_schema 64", "schema vs_script", "key 97 0", "context", "schema {sid}", "context"] + \
+    [x for ch in "/\\|~`'\"<>[]{{}}$^*%@#&=+-_:;!?" for x in ("key %d 0" % ord(ch), "context", "key %d 0" % ord(ch), "context", "key %d 0" % ord(ch), "key 32 0", "read_commit")]
 
 
 def short_history(sid):
